@@ -183,10 +183,12 @@ class IterativeAggregation(AccessorBase):
         if begin is not None:
             try:
                 (begin_ix,) = _index.get_indexer([begin], method=method)
-            except KeyError:
+            except (KeyError, TypeError):
+                # TypeError: label not comparable with the index (lookup methods)
                 begin_ix = -1
-            # get_indexer signals a label it cannot locate with -1
-            if begin_ix < 0:
+            # get_indexer signals a label it cannot locate with -1; with a lookup
+            # method it places missing values (NaN, NaT, "") at the end of the axis
+            if begin_ix < 0 or begin != begin or begin == "":
                 raise ValueError(
                     f"Value {begin} for 'begin' not found in index for dim {dim}"
                 ) from None
@@ -197,10 +199,12 @@ class IterativeAggregation(AccessorBase):
         if end is not None:
             try:
                 (end_ix,) = _index.get_indexer([end], method=method)
-            except KeyError:
+            except (KeyError, TypeError):
+                # TypeError: label not comparable with the index (lookup methods)
                 end_ix = -1
-            # get_indexer signals a label it cannot locate with -1
-            if end_ix < 0:
+            # get_indexer signals a label it cannot locate with -1; with a lookup
+            # method it places missing values (NaN, NaT, "") at the end of the axis
+            if end_ix < 0 or end != end or end == "":
                 raise ValueError(
                     f"Value {end} for 'end' not found in index for dim {dim}"
                 ) from None
